@@ -843,6 +843,9 @@ def replay(case, stats):
         return check_nested(case, stats)
     if case["sub"] == "long-history":
         return check_long_history(case, stats)
+    if case["sub"] == "collisions":
+        from . import c09
+        return c09.check_collisions(case, stats)
     return {"history": check_history, "stream-history": check_stream_history, "reset": check_reset, "schedule": check_schedule, "determinism": check_determinism, "twice": check_twice, "threads": check_threads, "first-use-race": check_first_use_race}[case["sub"]](case, stats)
 
 
@@ -853,6 +856,8 @@ def run(ctx):
     ctx.units("pool-pairs-triples", unit_pool, [{"lengths": [2, 3], "sample": 3 if q else 0, "seed": ctx.seed, "shard": i, "nshards": ns} for i in range(ns)], procs=ns)
     ctx.units("stream-pool-pairs-triples", unit_stream_pool, [{"lengths": [2, 3], "sample": 0, "seed": ctx.seed, "shard": i, "nshards": ns} for i in range(ns)], procs=ns)
     ctx.units("shared-keyword-dialect-pairs", unit_shared_keywords, [{"shard": i, "nshards": ns} for i in range(ns)], procs=ns)
+    from . import c09
+    ctx.units("header-name-collisions-one-compiler", c09.unit_collisions, [{}])
     ctx.units("long-histories-many-dialects-and-files", unit_long_history, [{}])
     ctx.units("file-appears-and-disappears", unit_fs, [{}])
     ctx.units("sampled-histories", unit_sampled, [{"n": 180 if q else 2000, "seed": ctx.seed, "shard": i} for i in range(8 if q else 16)], procs=16)
